@@ -80,6 +80,14 @@ for line in sys.stdin:
 					out.append('%d' % int(h.element(n)))
 				except Exception as e:
 					out.append('err:%s' % name(e))
+			# ... and as the expires attribute of two Set-Cookie fields (the list is split at commas, the date has one)
+			try:
+				h = Headers()
+				h.parse(b'Set-Cookie: a=b; expires=' + text + b'; path=/\r\nSet-Cookie: c=d; expires=' + text)
+				es = h.elements('Set-Cookie')
+				out.append('%d:%s' % (len(es), ','.join('%d' % int(e.expires) if e.expires is not None else 'None' for e in es)))
+			except Exception as e:
+				out.append('err:%s' % name(e))
 			print(' '.join(out))
 		else:
 			print('bad-op')
